@@ -752,6 +752,17 @@ def generate():
     if "self.received_count = 0" not in rs or "self.ref = None" not in rs or "self.clid = clid" not in rs:
         raise P.Untranslatable("RemoteReferenceTracker.__init__: unexpected initial state")
     out.append("Definition first_clid : Z := %d." % count_start(bro, "nextCLID"))
+    # bound methods (CallableSlicer -> getTrackerForMyCall) get the NEGATED next clid, in the same tables and from the same counter
+    mc = ast.unparse(P.find_def(bro, "Broker.getTrackerForMyCall"))
+    if "tracker = self.myReferenceByPUID.get(puid" not in mc or not ((("clid = next(self.nextCLID)" in mc) and ("clid = -clid" in mc))
+                                                                    or "-next(self.nextCLID)" in mc):
+        raise P.Untranslatable("getTrackerForMyCall: the clid of a bound method is no longer the negated next(self.nextCLID)")
+    if mc.count("next(self.nextCLID)") != 1:
+        raise P.Untranslatable("getTrackerForMyCall draws %d clids" % mc.count("next(self.nextCLID)"))
+    cs = ast.unparse(P.find_def(ref, "CallableSlicer.sliceBody"))
+    if "tracker = broker.getTrackerForMyCall(puid, self.obj)" not in cs or "yield tracker.clid" not in cs:
+        raise P.Untranslatable("CallableSlicer.sliceBody: unexpected shape")
+    out.append("(* getTrackerForMyCall: `clid = next(self.nextCLID); clid = -clid` *)\nDefinition callable_clid (n : Z) : Z := (Z.opp n).")
     out.append("Definition first_reqid : Z := %d." % count_start(bro, "nextReqID"))
     nr = P.find_def(bro, "Broker.newRequestID")
     if "return next(self.nextReqID)" not in ast.unparse(nr):
